@@ -157,6 +157,20 @@ where
     preceded(many0(alt((comment, into_inner(multispace1)))), inner)
 }
 
+/// Parses a keyword that is written as two words, such as `BIT STRING` or `WITH SYNTAX`.
+/// The words are lexical items of their own, so any amount of white space and any comment
+/// may stand between them.
+pub fn keyword_pair<'a>(
+    keyword: &'static str,
+) -> impl Parser<Input<'a>, Output = Input<'a>, Error = ErrorTree<'a>> {
+    let (first, second) = keyword.split_once(' ').unwrap_or((keyword, ""));
+    recognize((
+        tag(first),
+        many1(alt((comment, into_inner(multispace1)))),
+        tag(second),
+    ))
+}
+
 pub fn in_parentheses<'a, F>(
     inner: F,
 ) -> impl Parser<Input<'a>, Output = F::Output, Error = F::Error>
